@@ -155,7 +155,7 @@ static void *tryend_holder (void *arg) {
 	int r; (void) arg;
 	for (r = 1; r <= te_rounds; r++) {
 		volatile int w;
-		while (__atomic_load_n (&te_phase, __ATOMIC_SEQ_CST) < r) ;
+		{ int sp_ = 0; while (__atomic_load_n (&te_phase, __ATOMIC_SEQ_CST) < r) if (++sp_ > 20000) { sched_yield (); sp_ = 0; } }
 		raw_lock (); for (w = 0; w < 2000; w++) ; raw_unlock ();
 		__atomic_store_n (&te_done, r, __ATOMIC_SEQ_CST);
 	}
